@@ -442,6 +442,151 @@ def gen_sequences(rng, quick):
     return seqs
 
 
+# ------------------------------------------------------------------ command-line histories with one cache
+EDITS = ["add", "remove", "rename", "invalidate", "doc"]
+
+
+def apply_edit(rng, st, kind, k):
+    """edit ONE imported, tagged package of the state st (a copy): add / remove / rename a target,
+    make a signature invalid, change the doc comment -h shows.  Returns a description or None."""
+    tagged = sorted({s["pkg"] for f in st["files"] for d in f["decls"] for s in d["specs"] if isinstance(s["pkg"], int) and G.oracle_tag(s) is not None})
+    rng.shuffle(tagged)
+    for j in tagged:
+        pk = st["packages"][j]
+        plain = [f for f in pk["funcs"] if f["sig"] != "bad" and not f.get("file")]
+        used = {f["name"] for p2 in st["packages"] + [st["local"]] for f in p2["funcs"]}
+        fresh = [n for n in G.FUNC_NAMES if n not in used]
+        if kind == "add" and fresh:
+            nm = rng.choice(fresh)
+            pk["funcs"].append({"name": nm, "sig": rng.choice(G.SIGS), "doc": "was added by edit %d" % k})
+            return "add: %s to %s" % (nm, pk["dir"])
+        if kind in ("remove", "rename", "invalidate") and len(plain) >= 2:
+            f = rng.choice(plain)
+            old = f["name"]
+            if kind == "remove":
+                pk["funcs"].remove(f)
+                if pk.get("default") == old:
+                    pk["default"] = None
+                pk["aliases"] = {a: v for a, v in (pk.get("aliases") or {}).items() if v != old}
+                return "remove: %s from %s" % (old, pk["dir"])
+            if kind == "rename" and fresh:
+                f["name"] = rng.choice(fresh)
+                if pk.get("default") == old:
+                    pk["default"] = f["name"]
+                pk["aliases"] = {a: (f["name"] if v == old else v) for a, v in (pk.get("aliases") or {}).items()}
+                return "rename: %s to %s in %s" % (old, f["name"], pk["dir"])
+            if kind == "invalidate":
+                f["sig"] = "bad"
+                return "invalidate: %s of %s gets an unsupported parameter" % (old, pk["dir"])
+        if kind == "doc" and plain:
+            f = rng.choice(plain)
+            f["doc"] = "has the description number %d" % k
+            return "doc: comment of %s in %s" % (f["name"], pk["dir"])
+    return None
+
+
+def gen_histories(rng, quick):
+    """Command-line HISTORIES of one project with one cache: invocations (-l, run, -h) around edits
+    of IMPORTED packages only (the magefiles never change).  Default mode must always be current;
+    hash mode (MAGEFILE_HASHFAST=1) tracks the magefiles only, so it shows the state of the last build."""
+    import copy
+    out = []
+    for k in range(2 if quick else 10):
+        for _ in range(50):
+            specs = [G.gen_spec(rng, j, rng.choice(PLACEMENTS), rng.choice([0, 1, 2]), kind) for j, kind in enumerate(rng.sample(["root", "alias", "alias"], 3))]
+            base = G.assemble(rng, "h%04d" % k, ["inside", "parent"][k % 2], specs, 3, nlocal=rng.choice([1, 2]))
+            for j in range(3):
+                base["packages"][j] = G.gen_package(rng, j, shape=rng.choice(["funcs", "both"]), nfuncs=rng.choice([2, 3]))
+            base["packages"][0]["nested"] = None
+            try:
+                G.rename_until_clash_free(rng, base)
+                break
+            except Exception:
+                continue
+        states, steps = [base], [{"state": 0, "mode": "default", "first": "list", "edit": None}]
+        kinds = list(EDITS)
+        rng.shuffle(kinds)
+        for e, kind in enumerate(kinds[:4 if quick else 5]):
+            for _ in range(20):
+                st = copy.deepcopy(states[-1])
+                what = apply_edit(rng, st, kind, e + 1)
+                if what is None:
+                    break
+                try:
+                    G.oracle_expected(st)
+                except G.NameClash:
+                    continue
+                states.append(st)
+                if e == 1:       # once per history: hash mode right after the edit (stale by design), then default mode
+                    steps.append({"state": len(states) - 1, "mode": "hash", "first": "list", "edit": what})
+                    steps.append({"state": len(states) - 1, "mode": "default", "first": rng.choice(["list", "help"]), "edit": None})
+                else:
+                    steps.append({"state": len(states) - 1, "mode": "default", "first": rng.choice(["list", "list", "help", "run"]), "edit": what})
+                break
+        out.append({"history": {"states": states, "steps": steps}})
+    return out
+
+
+def run_history(ctx, mage, job, outside):
+    """returns one observation per step, each with 'expected_state' (index): default mode = the
+    state on disk; hash mode = the state of the last build (only the magefiles are tracked)"""
+    H = job["history"]
+    states = H["states"]
+    d = materialize(mage, states[0], outside)
+    disk = dict(G.render_project(states[0], REPO, projlib.PROBE_GO))
+    cwd, pre, mf = G.start(states[0], d, outside)
+    on_disk, built, prev_names, res = 0, None, [], []
+    paths = sorted({G.import_path(states[0], pk) for pk in states[0]["packages"]})
+    for step in H["steps"]:
+        st = states[step["state"]]
+        if step["state"] != on_disk:
+            files = G.render_project(st, REPO, projlib.PROBE_GO)
+            for rel, text in files.items():
+                if disk.get(rel) != text:
+                    with open(os.path.join(d, rel), "w") as f:
+                        f.write(text)
+            disk, on_disk = dict(files), step["state"]
+        env = dict(FAST) if step["mode"] == "hash" else {}
+        inv = []
+        def run(args):
+            r = mage.run(cwd, pre + args, env=env)
+            inv.append({"args": args, "rc": r["rc"]})
+            return r
+        if step["first"] == "help" and prev_names:
+            run(["-h", prev_names[0]])
+        elif step["first"] == "run" and prev_names:
+            run(prev_names[:2])
+        compiled = step["mode"] == "default" or built is None
+        r = run(["-l"])
+        obs = {"mf": mf, "args": pre, "mode": step["mode"], "edit": step["edit"], "golist_mf": None, "gofiles": {},
+               "magefiles": [os.path.join(mf, f["name"]) for f in sorted(st["files"], key=lambda f: f["name"])]}
+        if compiled:
+            built = on_disk
+        obs["expected_state"] = on_disk if step["mode"] == "default" else built
+        if r["rc"] != 0:
+            obs.update({"list_rc": r["rc"], "error": projlib.stderr_class(r["err"]), "stderr": r["err"][-800:]})
+        else:
+            names = list(projlib.parse_list(r["out"])["targets"])
+            r2 = run(names) if names else {"rc": 0, "out": "", "err": ""}
+            obs.update({"list_rc": 0, "names": names, "run_rc": r2["rc"], "calls": [c[0] for c in projlib.calls(r2["out"])]})
+            prev_names = names
+            # -h of an imported target with a description: the text of the expected state
+            exp_st = states[obs["expected_state"]]
+            docs = [(G.oracle_tag(s), f) for fl in exp_st["files"] for dd in fl["decls"] for s in dd["specs"] if isinstance(s["pkg"], int) and G.oracle_tag(s) is not None
+                    for f in exp_st["packages"][s["pkg"]]["funcs"] if f.get("doc") and f["sig"] != "bad"]
+            if docs:
+                a, f = docs[-1]
+                word = (a + ":" if a else "") + f["name"]
+                rh = run(["-h", word.lower()])
+                obs["doc_probe"] = {"word": word.lower(), "rc": rh["rc"], "want": f["doc"], "shown": f["doc"] in rh["out"]}
+        obs["invocations"] = inv
+        res.append(obs)
+    gl = golist(mage, mf, paths)
+    for o in res:
+        o["golist_mf"] = o["golist_start"] = gl
+    return res
+
+
 def run_sequence(ctx, mage, unitbin, seq, outside):
     """parse the states of seq in order in ONE unitrun process; returns one observation per step
     (same keys as run_project where they make sense)"""
@@ -545,6 +690,7 @@ def run(ctx):
     ctx.prove(["Props/C19.vo", "Run/eval_C19.vo"], extra_props=["Compose_C19_C06"])   # + composition C19 => C06 => C04 (exposed names are the valid declarations, and resolve)
     import extractlib; extractlib.tables_tie(ctx, ['importTag'])   # literal data of the source re-proved equal to the models' (DESIGN 3.5)
     ctx.trusted_base += [
+        "command-line histories: mage's default mode rebuilds on every invocation (GOCACHE in use), hash mode reuses the binary named after the magefiles' hash - the C08 model",
         "harness/unitrun op importseq (parse.PrimaryPackage called repeatedly in one process)",
         "harness/importast (go/parser's view of the import declarations: Doc/Comment groups, Lparen, path literal) - standard library only",
         "lib/c19gen.py (project generator, renderer to Go source, Coq printer, oracle), lib/projlib.py (runner, listing/CALL parsers)",
@@ -559,19 +705,24 @@ def run(ctx):
     unitbin = go_build_harness(ctx, "unitrun")
     if ctx.replay and ctx.replay.get("case"):
         c = ctx.replay["case"]
-        projects, sequences = ([], [c]) if "sequence" in c else ([c], [])
+        projects, sequences = ([], [c]) if ("sequence" in c or "history" in c) else ([c], [])
     else:
         projects = gen_projects(rng, ctx.quick)
-        sequences = gen_sequences(rng, ctx.quick)
-    ctx.log("projects:", len(projects), "sequences:", len(sequences))
-    results = pmap(lambda j: run_sequence(ctx, mage, unitbin, j, outside) if "sequence" in j else run_project(ctx, mage, j, outside),
-                   projects + sequences)
+        sequences = gen_histories(rng, ctx.quick) + gen_sequences(rng, ctx.quick)
+    ctx.log("projects:", len(projects), "sequences + histories:", len(sequences))
+    def one(j):
+        if "history" in j:
+            return run_history(ctx, mage, j, outside)
+        return run_sequence(ctx, mage, unitbin, j, outside) if "sequence" in j else run_project(ctx, mage, j, outside)
+    results = pmap(one, sequences + projects)      # the long histories first
+    results = results[len(sequences):] + results[:len(sequences)]
     observations = results[:len(projects)]
     # the steps of the sequences are cases like the projects: (state, observation); origin[i] = (sequence, step) for reporting
     nproj = len(projects)
     origin = {}
     for seq, obss in zip(sequences, results[nproj:]):
-        for si, (st, o) in enumerate(zip(seq["sequence"], obss)):
+        sts = [seq["history"]["states"][o["expected_state"]] for o in obss] if "history" in seq else seq["sequence"]
+        for si, (st, o) in enumerate(zip(sts, obss)):
             origin[len(projects)] = (seq, si)
             projects = projects + [st]
             observations.append(o)
@@ -639,6 +790,17 @@ def run(ctx):
         ci = len(items)
         if ci in origin:
             seq, si = origin[ci]
+            if "history" in seq:
+                bad = oracle(proj, obs, exposure_only=True)
+                dp = obs.get("doc_probe")
+                if dp and (dp["rc"] != 0 or not dp["shown"]):
+                    bad.append(("help", "`mage -h %s`: rc %d, the description %r is not shown" % (dp["word"], dp["rc"], dp["want"])))
+                for clause, detail in bad:
+                    ctx.violation({"kind": "oracle", "clause": clause + "-in-history", "step": si, "mode": obs["mode"], "after_edit": obs["edit"], "detail": detail,
+                                   "history": [("%s; " % s["edit"] if s["edit"] else "") + "%s mode, first %s" % (s["mode"], s["first"]) for s in seq["history"]["steps"]]},
+                                  case=seq, extra={"observed_at_step": {k: obs.get(k) for k in ("names", "calls", "error", "stderr", "invocations", "expected_state", "doc_probe")}})
+                items.append(coq_case(proj, obs, ast["files"]))
+                continue
             for clause, detail in oracle(proj, obs, exposure_only=True):
                 ctx.violation({"kind": "oracle", "clause": clause + "-in-sequence", "step": si, "detail": detail,
                                "sequence": "states %s parsed in one process" % [s["name"] + ("+" + ",".join(sorted({f["file"] for pk in s["packages"] for f in pk["funcs"] if f.get("file")})) if any(f.get("file") for pk in s["packages"] for f in pk["funcs"]) else "") for s in seq["sequence"]]},
@@ -664,7 +826,12 @@ def run(ctx):
                    "every placement x every length 0..12 of preceding lines (group lengths 1..13, nine included) and every placement x every spelling x root/alias "
                    "occur in every run" % len(projects))
     cov["projects"] = nproj
-    cov["sequences_in_one_process"] = {"sequences": len(sequences), "steps": len(origin),
+    hs = [s for s in sequences if "history" in s]
+    cov["command_line_histories_with_one_cache"] = {
+        "histories": len(hs), "steps": sum(len(h["history"]["steps"]) for h in hs),
+        "edits": sorted({(s["edit"] or "").split(":")[0] for h in hs for s in h["history"]["steps"] if s["edit"]}),
+        "judged": "default-mode steps against the state on disk; hash-mode steps against the state of the last build (the magefiles did not change)"}
+    cov["sequences_in_one_process"] = {"sequences": len(sequences) - len(hs), "steps": len(origin) - sum(len(h["history"]["steps"]) for h in hs),
                                        "shapes": "A,B (same module path and import paths, different packages) and A, A+file added to an imported package, B, A+file"}
     cov["tags_by_oracle"] = dist
     cov["distribution"] = by
